@@ -33,7 +33,7 @@ func c01NonTrivial(tags map[string]int, ev map[string]int) bool {
 
 func TestC01(t *testing.T) {
 	r, e := start(t, "C01",
-		"typed scalar programs (int/bool/string; arithmetic, comparison, logical, negation, grouping with minimal parentheses; all definition forms; =, op=, ++/--; if/else-if/else; the three switch forms; every for-form; break/continue; print/itoa/panic) generated from an own AST and compared with an independent reference interpreter: exact stdout, exit status, empty stderr, and acceptance. Non-trivial = at least two operator families and a control construct whose outcome differs between two dynamic evaluations (or a loop running twice, or nested loops); distinct by source text.",
+		"typed scalar programs (int/bool/string; arithmetic, comparison, logical, negation, grouping with minimal parentheses; all definition forms; =, op=, ++/--; if/else-if/else; the three switch forms; every for-form; break/continue; print/itoa/panic) generated from an own AST and compared with an independent reference interpreter: exact stdout, exit status, empty stderr, and acceptance. Non-trivial = at least two operator families and a control construct whose outcome differs between two dynamic evaluations (or a loop running twice, or nested loops); distinct by source text. A third of the programs (by a hash of the text) additionally run as the text of an imported file (same output expected).",
 		[]string{"panic(s) prints 'panic: s' on stdout and exits with status 1 (the constant both back-ends emit)", "strings use the shell-neutral alphabet [A-Za-z0-9_.,:/=+@#] plus single inner blanks (C08 owns every other character)", "excluded as undefined: division/modulo by zero, break inside switch, := redeclaring an outer variable, side effects in a switch tag", "reference interpreter = Go semantics with the README's eager condition evaluation"})
 	defer r.Flush()
 	runGoCrossValidation(r, e, e.Pick(8, 60)) // self-test of the oracle against the Go toolchain
